@@ -30,4 +30,11 @@ CHECKS.update({
             "Deviation bound 2-3 in the quick tier (stated per program in the evidence). Fix 068b360 repaired the targeted-waiter defect this check found.", ENGINE_TECH),
 })
 
+CHECKS.update({
+    "C09": ("6/C09", "Expected lists [A,B],[A,A,B],[A,B,C] x arrival multisets (surplus events, two rounds) x collector num_workers 1..4 x every completion order of the collecting invocations (+ a collecting step that fails once and is retried); the multiset of returned lists must equal the list-buffer reference on some serial order of the arrivals and no event may be in two lists.",
+            "Linearizability against the sequential semantics, which the num_workers=1 programs bind to the implementation. One genuine defect (double completion from one snapshot) recorded.", ENGINE_TECH),
+    "C10": ("6/C10", "Waits with/without requirements, timeouts, explicit/implicit ids, two sequential waits, concurrent inputs x response scripts (matching, duplicate, non-matching, subclass, early, late) x serialize+resume at every quiescent point x all arrival / timer / completion orders within the deviation bound.",
+            "Two genuine root causes (match while a replay is in flight; rehydration of requirement waiters after resume) are recorded with root-cause context in the witness; violations outside those contexts or clauses alarm.", ENGINE_TECH),
+})
+
 NOT_APPLICABLE = {}
